@@ -39,6 +39,7 @@ fn main() {
                 "c08" => drive_ops::drive_c08(seed, thorough, &mut out),
                 "c09" => drive_ops::drive_c09(seed, thorough, &mut out),
                 "cmp-table" => drive_ops::cmp_table(&mut out),
+                "c14" => drive_ops::drive_c14(seed, thorough, &mut out),
                 _ => panic!("unknown family"),
             };
             out.flush().unwrap();
